@@ -227,7 +227,7 @@ func RenderConc(scs []*Scenario) string {
 			body("\t")
 			w("}\n")
 		case "twoholders":
-			w("func acc2%d(h1, h2 *H) {\n\tp := h2.t\n\t_ = h1\n", n)
+			w("func accTwo%d(h1, h2 *H) {\n\tp := h2.t\n\t_ = h1\n", n)
 			body("\t")
 			w("}\n")
 		case "gorunhelper":
@@ -309,7 +309,7 @@ func RenderConc(scs []*Scenario) string {
 			case "ifaceparam":
 				w("%svar ap AP = &DP%d{}\n%sap.DoP(p)\n", ind, n, ind)
 			case "twoholders":
-				w("%sh1, h2 := &H{p}, &H{p}\n%sacc2%d(h1, h2)\n", ind, ind, n)
+				w("%sh1, h2 := &H{p}, &H{p}\n%saccTwo%d(h1, h2)\n", ind, ind, n)
 			case "gorunhelper":
 				w("%sfin2 := make(chan bool)\n%sgo run%d(func() {\n", ind, ind, n)
 				body(ind + "\t")
